@@ -140,6 +140,7 @@ SHAPES = [("0.03", "-0.03", "0.05"), ("-0.04", "0.02", "-0.07"), ("0.001", "-0.0
 EXTREME = SHAPES + [("1e+20", "5e-324", "3.0"), ("1.7976931348623157e+308", "-0.5", "1e-300"), ("3.0", "2.0", "-1.0"), ("-5e-324", "1e+20", "-1e+20"), ("1E-9", "-2.50E+00", "+4.0")]
 LEEDS_EXTREME = [("0.03", "-0.03", "0.05"), ("-0.04", "0.02", "-0.07"), ("0.001", "-0.0001", "0.00012"), ("12.5", "-100.0", "1234.5"), ("1E-05", "-1E-05", "2E-05"), ("-0.05", "0.0", "0.02"), ("7.0", "-0.009", "-0.05"), ("1.0E+20", "5.0E-324", "3.0"), ("3.0", "2.0", "-1.0"), ("-5E-324", "1.0E+20", "-1.0E+20")]
 
+SPECIES_VARIANTS = ["C", "O", "N", "H", "OH", "C2", "HCO", "NO"]
 WINDOWS = [("10", "800"), ("0", "0"), ("-9999", "9999"), ("50", "-1"), ("-1", "300"), ("100", "100")]
 
 
@@ -175,6 +176,18 @@ def build_lines(fmt, thorough, seed):
                  "tmin": w[0], "tmax": w[1], "idx": idx, "code": code}
             if fmt == "kida":
                 r["tmin"], r["tmax"] = str(int(float(w[0]))), str(int(float(w[1])))
+            out.append(r)
+    # the law of a type code does not depend on *which* species reacts, except for the documented
+    # self-shielded molecules (H2, CO, N2): one generic row per code for reactants whose names are
+    # sub- or superstrings of those
+    for code, marker in CODES[fmt]:
+        for x in SPECIES_VARIANTS:
+            idx += 1
+            reactants = [x, "CH"] if marker is None else [x, marker]
+            if fmt == "uclchem" and code:
+                reactants = [x]
+            r = {"reactants": reactants, "products": ["C2", "H"] if x != "C2" else ["C", "CH"], "a": lit(fmt, "a", 1), "b": lit(fmt, "b", 1), "c": lit(fmt, "c", 1),
+                 "tmin": WINDOWS[1][0], "tmax": WINDOWS[1][1], "idx": idx, "code": code}
             out.append(r)
     return out
 
@@ -281,6 +294,18 @@ def _analyse(fmt, tier, seed, which, res):
                 except Exception:
                     pass
             kind = "names" if any(w in first for w in ("undeclared identifier", "redefinition")) else "syntax"
+            mk = re.search(r"\bk\[(\d+)\]\s*=", srcline)
+            mi = re.search(r"undeclared identifier '(\w+)'", first)
+            if which == "C05" and kind == "names" and mk and mi:
+                # an identifier inside the rate expression of a corpus reaction that nothing declares: none of the
+                # laws of the corpus (no self-shielded reactant in it) contains such a quantity
+                pos = int(mk.group(1))
+                rr_ = next((r for r in alln if by_idx.get(r["idx"]) == [pos]), None)
+                if rr_ is not None and law(fmt, rr_["code"], F(rr_["a"]), F(rr_["b"]), F(rr_["c"])) is not None:
+                    res["n"] += 1
+                    res["viol"].append({"key": f"{fmt}:{tdir}:code={rr_['code']!r}:reactant={rr_['reactants'][0]}:foreign-symbol", "what": f"rate expression of a {fmt} reaction of type {rr_['code']!r} with reactant {rr_['reactants'][0]} uses '{mi.group(1)}', a quantity that is neither declared nor part of the law of that type: {srcline[:160]}",
+                                        "replay": {"format": fmt, "target": tdir, "stderr": err[-1200:], "source_line": srcline, "reaction": rr_, "replay_note": "clang++-14 rejects the emitted naunet_rates/naunet_ode source"}})
+                    continue
             if which == "C05" and kind == "syntax":
                 res["n"] += 1
                 res["viol"].append({"key": f"{fmt}:{tdir}:compile", "what": f"emitted rate expression is not valid C ({fmt}): {first.strip()[-160:]} | source: {srcline[:160]}",
